@@ -7,14 +7,20 @@ libopenflow_01 / nicira codecs and compared with the independent layout tables a
 reference encoder in mc/refs/ofspec.py.
 
 Oracle clauses (violation key = C01:<clause>:...):
-  raises        pack / len / decode raised (key: innermost non-generic pox frame + exception)
-  length        len(obj) != len(bytes)   (the header length field is part of `layout`)
-  layout        bytes differ from the specification layout (key names the first field)
+  raises        pack / len / decode raised (key: file:qualname of the innermost non-generic pox
+                frame + exception type, so one broken function is one key whatever contains it)
+  length        len(obj) != len(bytes)   (key: kind; the header length field is written from len())
+  layout        bytes differ from the specification layout (key: owning structure + first field)
   limit         an encoding that does not fit its 16-bit length field was not rejected
-  consumed      decode did not consume exactly the encoded length
+  consumed      decode did not consume exactly the encoded length (alone, and embedded at an offset
+                with trailing bytes)
   class         decode returned an object of another class
   equal         decoded object != original (library __eq__), or public fields differ
+                (key: kind + entry point, or kind + first component of the differing field)
   reencode      decoded object does not pack to the same bytes
+A case stops at the first length/layout failure (decoding a wrong encoding proves nothing); a
+decode clause that failed through one entry point is not reported again for the next one.
+Exceptions without any pox frame are harness errors, never violations.
 """
 import contextlib, io, logging, os, re, struct, sys, traceback, zlib
 from mc.engine import pmap
